@@ -60,7 +60,9 @@ def ensure_facts(repo="/repo", quiet=False, target_dir=None, cache_key_extra="")
     if os.path.exists(out) and os.path.getsize(out) > 1000:
         os.utime(out)
         return out, True
-    lock = open(os.path.join(CACHE, "extract.lock"), "w")
+    # one extraction at a time per cargo target directory
+    lock_name = "extract.lock" if target_dir is None else "extract-%s.lock" % hashlib.sha256(target_dir.encode()).hexdigest()[:12]
+    lock = open(os.path.join(CACHE, lock_name), "w")
     fcntl.flock(lock, fcntl.LOCK_EX)
     try:
         if os.path.exists(out) and os.path.getsize(out) > 1000:
